@@ -1,0 +1,183 @@
+//go:build verif
+
+package utreexo
+
+// Thin exported wrappers around unexported functions, compiled only with the `verif`
+// tag, so that an external verification harness can compare them with a formal model.
+// Nothing here changes behaviour.
+
+// VerifCalculateHashes wraps calculateHashes.
+func VerifCalculateHashes(numLeaves uint64, delHashes []Hash, proof Proof) ([]uint64, []Hash, []Hash, error) {
+	hnp, roots, err := calculateHashes(numLeaves, delHashes, proof)
+	return hnp.positions, hnp.hashes, roots, err
+}
+
+// VerifParentHash wraps parentHash.
+func VerifParentHash(l, r Hash) Hash { return parentHash(l, r) }
+
+// VerifDeTwin wraps deTwin (on a copy).
+func VerifDeTwin(dels []uint64, forestRows uint8) []uint64 {
+	c := make([]uint64, len(dels))
+	copy(c, dels)
+	return deTwin(c, forestRows)
+}
+
+// VerifRootsToDestroy wraps rootsToDestory.
+func VerifRootsToDestroy(numAdds, numLeaves uint64, roots []Hash) []uint64 {
+	return rootsToDestory(numAdds, numLeaves, roots)
+}
+
+// VerifProofPosition wraps proofPosition.
+func VerifProofPosition(target, numLeaves uint64, totalRows uint8) []uint64 {
+	return proofPosition(target, numLeaves, totalRows)
+}
+
+// VerifCalcNextPosition wraps calcNextPosition.
+func VerifCalcNextPosition(position, delPos uint64, forestRows uint8) (uint64, error) {
+	return calcNextPosition(position, delPos, forestRows)
+}
+
+// VerifCalcPrevPosition wraps calcPrevPosition.
+func VerifCalcPrevPosition(position, delPos uint64, forestRows uint8) uint64 {
+	return calcPrevPosition(position, delPos, forestRows)
+}
+
+// VerifIsAncestor wraps isAncestor.
+func VerifIsAncestor(higherPos, lowerPos uint64, forestRows uint8) bool {
+	return isAncestor(higherPos, lowerPos, forestRows)
+}
+
+// VerifInForest wraps inForest.
+func VerifInForest(pos, numLeaves uint64, forestRows uint8) bool {
+	return inForest(pos, numLeaves, forestRows)
+}
+
+// VerifTranslatePos wraps translatePos.
+func VerifTranslatePos(pos uint64, from, to uint8) uint64 { return translatePos(pos, from, to) }
+
+// VerifRootPosition wraps rootPosition.
+func VerifRootPosition(leaves uint64, h, forestRows uint8) uint64 {
+	return rootPosition(leaves, h, forestRows)
+}
+
+// VerifIsRootPosition wraps isRootPosition.
+func VerifIsRootPosition(position, numLeaves uint64) bool { return isRootPosition(position, numLeaves) }
+
+// VerifIsRootPositionOnRow wraps isRootPositionOnRow.
+func VerifIsRootPositionOnRow(position, numLeaves uint64, row uint8) bool {
+	return isRootPositionOnRow(position, numLeaves, row)
+}
+
+// VerifIsRootPositionTotalRows wraps isRootPositionTotalRows.
+func VerifIsRootPositionTotalRows(position, numLeaves uint64, totalRows uint8) bool {
+	return isRootPositionTotalRows(position, numLeaves, totalRows)
+}
+
+// VerifMaxPositionAtRow wraps maxPositionAtRow.
+func VerifMaxPositionAtRow(row, forestRows uint8, numLeaves uint64) (uint64, error) {
+	return maxPositionAtRow(row, forestRows, numLeaves)
+}
+
+// VerifMaxPossiblePosAtRow wraps maxPossiblePosAtRow.
+func VerifMaxPossiblePosAtRow(row, totalRows uint8) uint64 {
+	return maxPossiblePosAtRow(row, totalRows)
+}
+
+// VerifStartPositionAtRow wraps startPositionAtRow.
+func VerifStartPositionAtRow(row, forestRows uint8) uint64 {
+	return startPositionAtRow(row, forestRows)
+}
+
+// VerifGetLowestRoot wraps getLowestRoot.
+func VerifGetLowestRoot(numLeaves uint64, totalRows uint8) uint8 {
+	return getLowestRoot(numLeaves, totalRows)
+}
+
+// VerifSubtreeRow wraps subtreeRow.
+func VerifSubtreeRow(numLeaves uint64, subTree uint8) uint8 { return subtreeRow(numLeaves, subTree) }
+
+// VerifRemoveBit / VerifAddBit wrap removeBit / addBit.
+func VerifRemoveBit(val, bit uint64) uint64          { return removeBit(val, bit) }
+func VerifAddBit(val, place uint64, bit bool) uint64 { return addBit(val, place, bit) }
+
+// VerifGetNewPositions wraps getNewPositions.
+func VerifGetNewPositions(blockTargets []uint64, pos []uint64, hashes []Hash, numLeaves uint64, appendRoots bool) ([]uint64, []Hash) {
+	p := make([]uint64, len(pos))
+	copy(p, pos)
+	h := make([]Hash, len(hashes))
+	copy(h, hashes)
+	r := getNewPositions(blockTargets, hashAndPos{p, h}, numLeaves, appendRoots)
+	return r.positions, r.hashes
+}
+
+// VerifGetPrevPos wraps getPrevPos (on copies).
+func VerifGetPrevPos(totalRows uint8, cached, deleted, toDestroy []uint64, numAdds uint16, numLeaves uint64) ([]uint64, []int) {
+	c := make([]uint64, len(cached))
+	copy(c, cached)
+	return getPrevPos(totalRows, c, deleted, toDestroy, numAdds, numLeaves)
+}
+
+// VerifTTL is an exported copy of ttlInfo.
+type VerifTTL struct {
+	Pos uint64
+	TTL int
+}
+
+// VerifScheduleState returns the internal state of the tracker after genTTLs has run.
+func (cs *CachingScheduleTracker) VerifScheduleState() (dels [][]uint64, ttls [][]VerifTTL, numAdds []uint16, numLeaves []uint64, toDestroy [][]uint64) {
+	ttls = make([][]VerifTTL, len(cs.ttls))
+	for i := range cs.ttls {
+		for _, t := range cs.ttls[i] {
+			ttls[i] = append(ttls[i], VerifTTL{t.pos, t.ttl})
+		}
+	}
+	return cs.deletions, ttls, cs.numAdds, cs.numLeaves, cs.toDestroy
+}
+
+// VerifGenTTLs runs genTTLs.
+func (cs *CachingScheduleTracker) VerifGenTTLs() { cs.genTTLs() }
+
+// VerifNode is one node of the pointer forest as seen by VerifDump.
+type VerifNode struct {
+	Pos      uint64
+	Hash     Hash
+	Leaf     bool // no children reachable
+	Remember bool
+}
+
+// VerifDump walks the pointer forest read-only and returns every reachable node with the
+// position implied by its place in the niece structure, plus the NodeMap keys and the
+// position calculatePosition gives for each mapped node.
+func (p *Pollard) VerifDump() (nodes []VerifNode, mapped map[Hash]uint64, mapLen int) {
+	rows := TreeRows(p.NumLeaves)
+	rootPos := RootPositions(p.NumLeaves, rows)
+	var walk func(n, nieceHolder *polNode, pos uint64)
+	// n sits at pos; its children hang off nieceHolder (n itself for a root, n's sibling otherwise).
+	walk = func(n, nieceHolder *polNode, pos uint64) {
+		if n == nil {
+			return
+		}
+		var l, r *polNode
+		if nieceHolder != nil {
+			l, r = nieceHolder.lNiece, nieceHolder.rNiece
+		}
+		nodes = append(nodes, VerifNode{pos, n.data, l == nil && r == nil, n.remember})
+		if DetectRow(pos, rows) == 0 {
+			return
+		}
+		lp := LeftChild(pos, rows)
+		// children of n: l and r; l's children hang off r and vice versa.
+		walk(l, r, lp)
+		walk(r, l, lp|1)
+	}
+	for i, root := range p.Roots {
+		if i < len(rootPos) {
+			walk(root, root, rootPos[i])
+		}
+	}
+	mapped = make(map[Hash]uint64, len(p.NodeMap))
+	for _, n := range p.NodeMap {
+		mapped[n.data] = p.calculatePosition(n)
+	}
+	return nodes, mapped, len(p.NodeMap)
+}
